@@ -9,6 +9,16 @@ def showResp : Resp → String
   | .partialContent cr cl body => s!"206 cr={hexStr cr} cl={hexStr cl} body={hexBytesList body}"
   | .full cl body => s!"200 cl={cl} body={hexBytesList body}"
 
+/-- the If-Modified-Since argument: `~` (absent / unparsable), an integer (already an instant), or
+`d:y,mo,d,h,mi,s,tz` = the fields `parsedate_tz` returned -/
+def readIms (s : String) : Option (Option Int) :=
+  if s == "~" then some none
+  else if s.startsWith "d:" then
+    match ((s.drop 2).toString.splitOn ",").mapM (·.toInt?) with
+    | some [y, mo, d, h, mi, sec, tz] => some (parseDate ⟨y, mo, d, h, mi, sec, tz⟩)
+    | _ => none
+  else s.toInt?.map some
+
 def handle : List String → Option String
   | ["first", h, n] => do
     let k ← n.toNat?
@@ -22,8 +32,11 @@ def handle : List String → Option String
   | ["static", file, sched, head, rng, ims, mtime, maxread] => do
     let m ← maxread.toNat?
     let mt ← mtime.toInt?
-    pure (showResp (staticFile (unhexBytes file) (natList sched) (bool01 head) (optStr rng)
-      (optInt ims) mt m))
+    let i ← readIms ims
+    pure (showResp (staticFile (unhexBytes file) (natList sched) (bool01 head) (optStr rng) i mt m))
+  | ["timegm", y, mo, d, h, mi, s] => do
+    let r := timegm (← y.toInt?) (← mo.toInt?) (← d.toInt?) (← h.toInt?) (← mi.toInt?) (← s.toInt?)
+    pure (match r with | some t => s!"some {t}" | none => "none")
   | _ => none
 
 end Drv.Range
